@@ -93,6 +93,8 @@ def cases(seed, tier):
                     # the signal flaps: bad again during (or right after) the settle time of the first release
                     # (never at the very instant of the previous change: one device thread delivers its updates one
                     # after the other, each callback returning before the next update is looked at)
+                    if not inj[-1]["args"]["after"]:
+                        inj[-1]["args"]["after"] = 0.05  # (a flapping signal does not change twice in the same instant either)
                     inj[-1]["args"]["then"] = [[rng.choice([0.05, 0.1, 0.3 * sl, 0.9 * sl, 1.5 * sl]) if sl else rng.choice([0.05, 0.1]), 1], [rng.choice([0.05, 0.2, 1.0, 3.0]), 0]]
         inj.sort(key=lambda x: x["at"]["step"])
         c["script"][ci]["inject"] = inj
